@@ -72,6 +72,9 @@ class State:
                 break
 
     def assume(self, *facts):
+        from .values import NONNEG_SINK, WF_SINK, drain_nonneg
+        if NONNEG_SINK or WF_SINK:
+            self.pc.extend(drain_nonneg())
         for f in facts:
             if f is True:
                 continue
@@ -292,8 +295,10 @@ class Exec:
             if s.status == "run":
                 s.status, s.value = "return", None
             self.exits.append(s)
+        self.canaries = []
         for s in self.exits:
             self.check_exit(s)
+            self.canaries.append(Obl("%s:canary#%d" % (self.fnname, len(self.canaries)), list(s.pc), z3.BoolVal(False), "canary", 0, self.fnname))
         return self.obls
 
     def check_exit(self, s):
@@ -583,6 +588,15 @@ class Exec:
         def inv_goals(s):
             return self.eval_contract_goals(inv.body, s, {})
 
+        # empty containers get the element types declared by the sidecar (values are arbitrary)
+        for name, ty in spec.get("types", {}).items():
+            cur = st.locals.get(name)
+            if isinstance(cur, DictV) and cur.kty == "any":
+                t = fresh(parse_type(ty), name + "_e0")
+                st.locals[name] = DictV(lambda k: False, t.val, 0, t.kty, t.vty)
+            elif isinstance(cur, SetV) and cur.kty == "any":
+                t = fresh(parse_type(ty), name + "_e0")
+                st.locals[name] = SetV(lambda k: False, 0, t.kty)
         # 1. establishment
         e = st.fork()
         bind_it(e, 0)
@@ -601,7 +615,9 @@ class Exec:
                 if isinstance(cur, (Closure, Builtin, RepoFunction, ModuleRef)):
                     continue
                 facts = []
-                if isinstance(cur, Seq) and how == "elem":
+                if name in spec.get("types", {}):
+                    s.locals[name] = fresh(parse_type(spec["types"][name]), name, (), facts)
+                elif isinstance(cur, Seq) and how == "elem":
                     s.locals[name] = fresh_seq(cur.ety(), name, (), facts, cur.kind, n=cur.n)
                 else:
                     s.locals[name] = fresh(type_of(cur), name, (), facts)
@@ -854,7 +870,7 @@ class Exec:
         if not st.pc:
             return True
         s = z3.Solver()
-        s.set("timeout", 1500)
+        s.set("timeout", 400)
         s.add(*st.pc)
         return s.check() != z3.unsat
 
@@ -1213,7 +1229,6 @@ class Exec:
                                            z3.And(pk >= 0, pk < n, to_z3(values_equal(keyat(pk), k)))), patterns=[pk]))
         st.assume(n >= 0)
         d._keys = Seq(d.size, keyat, "list")
-        d._keys._pos = None
         return d._keys
 
     def set_elems(self, s, st):
@@ -1543,6 +1558,19 @@ def intro(g, depth=0):
         return [([a] + hs, leaf) for hs, leaf in intro(b, depth + 1)]
     if z3.is_true(g):
         return []
+    if z3.is_not(g) and z3.is_and(g.arg(0)):
+        cs = g.arg(0).children()
+        return [(list(cs[:-1]) + hs, leaf) for hs, leaf in intro(z3.Not(cs[-1]), depth + 1)]
+    if z3.is_not(g) and z3.is_not(g.arg(0)):
+        return intro(g.arg(0).arg(0), depth + 1)
+    if z3.is_not(g) and z3.is_or(g.arg(0)):
+        out = []
+        for c in g.arg(0).children():
+            out.extend(intro(z3.Not(c), depth + 1))
+        return out
+    if z3.is_or(g):
+        cs = g.children()
+        return [([z3.Not(c) for c in cs[:-1]] + hs, leaf) for hs, leaf in intro(cs[-1], depth + 1)]
     return [([], g)]
 
 
